@@ -43,6 +43,7 @@ type engine struct {
 	querylog           string
 	slots              chan struct{}
 	selftest           string
+	opsDiff            string
 }
 
 // loadProgram loads /repo packages with the harness overlay.
